@@ -436,6 +436,138 @@ fn run_rosomaxa(ctx: &RunCtx, report: &mut Report) {
 // ---------------------------------------------------------------------------------------------
 // (C) VRP individuals: the map's input vectors
 
+// ---------------------------------------------------------------------------------------------
+// (D) compaction on every lattice shape (hook H6 places nodes at given coordinates)
+
+/// Every set of `n` cells which contains (0,0) and is connected (4- or 8-neighbourhood), grown cell by cell.
+fn shapes(max_cells: usize, diagonal: bool) -> Vec<Vec<(i32, i32)>> {
+    let neigh: Vec<(i32, i32)> =
+        if diagonal { vec![(1, 0), (-1, 0), (0, 1), (0, -1), (1, 1), (1, -1), (-1, 1), (-1, -1)] } else { vec![(1, 0), (-1, 0), (0, 1), (0, -1)] };
+    let mut seen: HashSet<Vec<(i32, i32)>> = HashSet::new();
+    let mut frontier: Vec<Vec<(i32, i32)>> = vec![vec![(0, 0)]];
+    seen.insert(vec![(0, 0)]);
+    let mut all = frontier.clone();
+    for _ in 1..max_cells {
+        let mut next = vec![];
+        for shape in &frontier {
+            for (x, y) in shape {
+                for (dx, dy) in &neigh {
+                    let c = (x + dx, y + dy);
+                    if shape.contains(&c) {
+                        continue;
+                    }
+                    let mut grown = shape.clone();
+                    grown.push(c);
+                    grown.sort();
+                    if seen.insert(grown.clone()) {
+                        next.push(grown);
+                    }
+                }
+            }
+        }
+        all.extend(next.iter().cloned());
+        frontier = next;
+    }
+    all
+}
+
+fn lattice_net(shape: &[(i32, i32)]) -> Result<Net, String> {
+    let random: Arc<dyn Random> = Arc::new(ScriptedRandom::new(vec![], Fallback::Default));
+    let config = NetworkConfig { node_size: 2, spread_factor: 0.5, distribution_factor: 0.5, learning_rate: 0.1, rebalance_memory: 10, has_initial_error: true };
+    let initial: Vec<Inp> = (0..4).map(|i| Inp { w: vec![(i % 2) as f64, (i / 2) as f64] }).collect();
+    let mut net: Net = Network::new(&(), initial, config, random, |cap| Factory { cap }).map_err(|e| e.to_string())?;
+    let present: Vec<Coordinate> = net.get_coordinates().collect();
+    for (x, y) in shape {
+        net.verif_insert(&(), Coordinate(*x, *y), &[*x as f64 * 0.1, *y as f64 * 0.1]);
+    }
+    for c in present {
+        if !shape.contains(&(c.0, c.1)) {
+            net.verif_remove(&c);
+        }
+    }
+    Ok(net)
+}
+
+/// Judges compaction of one shape: returns findings.
+fn judge_shape(shape: &[(i32, i32)]) -> Vec<(String, String)> {
+    let mut errs = vec![];
+    let built = catch(|| lattice_net(shape));
+    let mut net = match built {
+        Ok(Ok(n)) => n,
+        Ok(Err(e)) => return vec![("lattice:cannot-build".into(), e)],
+        Err(p) => return vec![(format!("lattice:panic@{}", panic_site(&p)), p)],
+    };
+    if net.size() != shape.len() {
+        return vec![("lattice:harness".into(), format!("built {} nodes for a shape of {}", net.size(), shape.len()))];
+    }
+    // reference: which cells are decimated
+    let (x_min, x_max) = (shape.iter().map(|c| c.0).min().unwrap(), shape.iter().map(|c| c.0).max().unwrap());
+    let (y_min, y_max) = (shape.iter().map(|c| c.1).min().unwrap(), shape.iter().map(|c| c.1).max().unwrap());
+    let (xd, yd) = match (x_max - x_min, y_max - y_min) {
+        (x, y) if x > y => (3, 4),
+        (x, y) if x < y => (4, 3),
+        _ => (4, 4),
+    };
+    let kept: Vec<(i32, i32)> = shape.iter().copied().filter(|c| c.0 % xd != 0 && c.1 % yd != 0).collect();
+    let expect = if kept.len() < 4 { shape.len() } else { kept.len() };
+    match catch(|| {
+        net.compact(&());
+        net
+    }) {
+        Ok(net) => {
+            let cfg = Cfg { spread: 0.5, distribution: 0.5, node_size: 2, rebalance: 10, initial_error: true, initial: 4 };
+            for (k, w) in wf(&net, &cfg) {
+                errs.push((format!("lattice:{k}"), w));
+            }
+            if net.size() < 4 && shape.len() >= 4 {
+                errs.push(("lattice:fewer-than-four-nodes".into(), format!("{} nodes left of {}", net.size(), shape.len())));
+            }
+            if net.size() > shape.len() {
+                errs.push(("lattice:compaction-grows".into(), format!("{} nodes after, {} before", net.size(), shape.len())));
+            }
+            if net.size() != expect {
+                errs.push((
+                    "lattice:nodes-collapsed".into(),
+                    format!("{} nodes before, {} survive the decimation (steps {xd},{yd}), {} are left: two survivors were mapped to one coordinate", shape.len(), kept.len(), net.size()),
+                ));
+            }
+        }
+        Err(p) => errs.push((format!("lattice:panic@{}", panic_site(&p)), p)),
+    }
+    errs
+}
+
+fn run_lattices(ctx: &RunCtx, report: &mut Report) {
+    let mut all = shapes(ctx.tier.pick(8, 9), false);
+    let mut seen: HashSet<Vec<(i32, i32)>> = all.iter().cloned().collect();
+    for s in shapes(ctx.tier.pick(6, 7), true) {
+        if seen.insert(s.clone()) {
+            all.push(s);
+        }
+    }
+    let chunk = 2000;
+    let chunks: Vec<&[Vec<(i32, i32)>]> = all.chunks(chunk).collect();
+    let parts = par_map(ctx.threads, chunks.len(), |i| {
+        let mut r = Report::new("model_checking");
+        let mut outcomes: HashSet<usize> = HashSet::new();
+        for shape in chunks[i] {
+            r.add_count("lattice_shapes", 1);
+            r.add_count("evaluations", 1);
+            r.add_count("transitions", 1);
+            let errs = judge_shape(shape);
+            outcomes.insert(errs.len());
+            for (key, what) in errs {
+                r.violation(Violation::new(format!("network:{key}"), format!("shape {shape:?}: {what}"), json!({"part": "lattice", "shape": shape})));
+            }
+        }
+        r
+    });
+    for p in parts {
+        report.merge(p);
+    }
+    report.add_count("states", all.len() as u64);
+}
+
 fn run_vrp_weights(report: &mut Report) {
     use vrp_core::models::common::Footprint;
     use vrp_core::prelude::*;
@@ -500,13 +632,16 @@ pub fn run(ctx: &RunCtx) -> Report {
     run_networks(ctx, &mut report);
     run_rosomaxa(ctx, &mut report);
     run_vrp_weights(&mut report);
+    run_lattices(ctx, &mut report);
     report.set("exhaustive", true);
     report.set(
         "rule",
         "(A) every history of length 4/5 over {store_batch(1..3), smooth(1), compact, set_learning_rate(0.1|1.0)} (first op a store) x 5 input families \
          (clusters, duplicates, far outlier, constant, collinear) x 32/64 network configurations x 2/3 random policies on the real Network; well-formedness \
          judged after construction and after every step; states = distinct final coordinate sets; (B) streams of 24/60 steps through the real Rosomaxa, \
-         observed via NetworkState; (C) weight vectors of real VRP individuals incl. the solution without tours",
+         observed via NetworkState; (C) weight vectors of real VRP individuals incl. the solution without tours; \
+         (D) compaction of EVERY lattice shape: all 4-connected cell sets containing (0,0) of <= 8/9 cells and all 8-connected ones of <= 6/7 cells, built on the \
+         real Network through hook H6, compacted by the real `compact`: well-formed, never below four nodes, never growing, no two survivors on one coordinate",
     );
     report.assume("harness storage keeps the newest `capacity` inputs; inputs are 2-dimensional");
     report
@@ -535,6 +670,17 @@ pub fn replay(ctx: &RunCtx, scenario: &Value) -> Result<Vec<Violation>, String> 
                     }
                 }
                 Err(e) => out.push(Violation::new("network:panic", e, scenario.clone())),
+            }
+        }
+        "lattice" => {
+            let shape: Vec<(i32, i32)> = scenario["shape"]
+                .as_array()
+                .ok_or("shape")?
+                .iter()
+                .filter_map(|c| Some((c[0].as_i64()? as i32, c[1].as_i64()? as i32)))
+                .collect();
+            for (key, what) in judge_shape(&shape) {
+                out.push(Violation::new(format!("network:{key}"), what, scenario.clone()));
             }
         }
         "rosomaxa" => {
